@@ -386,7 +386,8 @@ fn check_batch(cases: &[Case], rep: &mut Report) {
                             // is replaced by lowest..highest character and the ranges are intersected (measured on the pinned tree:
                             // every such case yields exactly that set); any other wrong set is a different finding
                             let pure_intersection = c.expr.terms.len() == 1 && c.expr.terms[0].len() >= 2 && c.expr.terms[0].iter().all(|(_, e)| e.is_none());
-                            let deviates_folded = c.size >= 3 && c.serial.is_none() && pure_intersection && got != c.expr.hull_model(&u);
+                            // (PrintableString folds its hulls in table order A-Z a-z 0-9 ' ( ) + , - . / : = ?, the listed range-order defect: no refinement there)
+                            let deviates_folded = c.kind != StrKind::Printable && c.size >= 3 && c.serial.is_none() && pure_intersection && got != c.expr.hull_model(&u);
                             let kind = if deviates {
                                 format!("{kind}(not-the-known-union-flattening)")
                             } else if deviates_folded {
@@ -451,6 +452,14 @@ fn atoms(k: StrKind, rng: Option<&mut Rng>) -> Vec<Atom> {
                 if let Some(n) = char::from_u32(*c as u32 + d).filter(|n| base.contains(&(*n as u32))) {
                     v.push(Atom::Str(vec![n; d as usize]));
                 }
+            }
+        }
+    }
+    // literals that read like other lexical items: digits only (4 and more digits), digits with the punctuation of time values
+    if let Some(base) = base_alphabet(k) {
+        for lit in ["13579", "2468", "0000", "12-.", "1-", "20240101"] {
+            if lit.chars().all(|c| base.contains(&(c as u32))) {
+                v.push(Atom::Str(lit.chars().collect()));
             }
         }
     }
